@@ -5,9 +5,20 @@
 From TT Require Import Lib.Base Model.Deferred.
 
 (* inner matchers, applied to the value token / the exception token of the Failure *)
-Inductive inner := IAlways | INever | IIs (k : nat).
-Definition inner_match (m : inner) (tok : nat) : bool :=
-  match m with IAlways => true | INever => false | IIs k => Nat.eqb k tok end.
+Inductive inner :=
+| IAlways | INever | IIs (k : nat)
+| INot (m : inner)                 (* Not(m) *)
+| IBoth (a b : inner)              (* MatchesAll(a, b) *)
+| IEither (a b : inner).           (* MatchesAny(a, b) *)
+Fixpoint inner_match (m : inner) (tok : nat) : bool :=
+  match m with
+  | IAlways => true
+  | INever => false
+  | IIs k => Nat.eqb k tok
+  | INot a => negb (inner_match a tok)
+  | IBoth a b => inner_match a tok && inner_match b tok
+  | IEither a b => inner_match a tok || inner_match b tok
+  end.
 
 Inductive matcher := MNoResult | MSucceeded (m : inner) | MFailed (m : inner).
 
